@@ -2,8 +2,9 @@
 //! reports here. The hook counts (logical time), enforces the work budget, injects the
 //! "aborted parse" fault, and — under thrsim — is the scheduling point.
 //!
-//! State is thread-local: srcsim/histsim/lifesim run one case per OS thread at a time; thrsim
-//! runs all its tasks as coroutines on one OS thread, where a single shared counter is what we want.
+//! State is thread-local: srcsim/histsim/lifesim run one case per OS thread at a time; under thrsim
+//! every client is its own OS thread (released one at a time by the baton scheduler), so each
+//! client has its own counters.
 
 use std::cell::Cell;
 
@@ -40,6 +41,34 @@ pub fn end_op() -> (u64, u64, bool) {
     CB_BUDGET.with(|c| c.set(u64::MAX));
     SRC_BUDGET.with(|c| c.set(u64::MAX));
     r
+}
+
+/// Per-operation hook state as a value (kept for harnesses that multiplex clients on one OS thread).
+#[derive(Clone, Copy, Debug)]
+pub struct Saved(u64, u64, u64, u64, u64, bool, u64, u64);
+
+pub fn save() -> Saved {
+    Saved(
+        CALLBACKS.with(|c| c.get()),
+        SOURCE_EVENTS.with(|c| c.get()),
+        ABORT_AT.with(|c| c.get()),
+        CB_BUDGET.with(|c| c.get()),
+        SRC_BUDGET.with(|c| c.get()),
+        ABORT_FIRED.with(|c| c.get()),
+        TICKS.with(|c| c.get()),
+        TICK_BUDGET.with(|c| c.get()),
+    )
+}
+
+pub fn restore(s: Saved) {
+    CALLBACKS.with(|c| c.set(s.0));
+    SOURCE_EVENTS.with(|c| c.set(s.1));
+    ABORT_AT.with(|c| c.set(s.2));
+    CB_BUDGET.with(|c| c.set(s.3));
+    SRC_BUDGET.with(|c| c.set(s.4));
+    ABORT_FIRED.with(|c| c.set(s.5));
+    TICKS.with(|c| c.set(s.6));
+    TICK_BUDGET.with(|c| c.set(s.7));
 }
 
 pub fn set_yield(on: bool) {
